@@ -193,7 +193,10 @@ def _fold_flow(ctx) -> None:
             val = cfg.subst_path(p, core.strip_casts(ex[2].value), {"self", "unit"})
             s = nun(val)
             disp = f"getattr(self, f'{pre}{{unit}}')()"
-            pinned = f"getattr(self.replace(fold={pin_recv}), f'{pre}{{unit}}')().replace(fold={pin_res})"
+            call = f"getattr(self.replace(fold={pin_recv}), f'{pre}{{unit}}')()"
+            pinned = f"{call}.replace(fold={pin_res})"
+            # accepted refinement: pin the result's fold only when that changes the offset (a repeated boundary)
+            cond = f"{pinned} if {pinned}.utcoffset() != {call}.utcoffset() else {call}"
             if small is not None and small[1] is True:
                 units = small[0]
                 ctx.ob("FOLD.small-units", f"DateTime.{q}/instance-fold", units <= SMALL and s == disp,
@@ -201,9 +204,9 @@ def _fold_flow(ctx) -> None:
                        f"instance itself (its fold is forwarded by set(): {fwd})", m.loc(ex[2]))
             else:
                 covered = small[0] if small is not None else set()
-                ok = s == pinned and SMALL <= (covered | (set() if small is not None else SMALL)) and fwd
+                ok = s in (pinned, cond) and SMALL <= (covered | (set() if small is not None else SMALL)) and fwd
                 if small is None:
-                    ok = s == pinned
+                    ok = s in (pinned, cond)
                 ctx.ob("FOLD.flow", f"DateTime.{q}/day-and-above", ok,
                        f"for day-and-above units the dispatcher returns `{s}`; the instance's fold must not reach create(): "
                        f"expected `{pinned}` (a skipped boundary resolved {'forward' if pin_recv else 'backward'}, a repeated one "
